@@ -1,5 +1,6 @@
 import Driver.Util
 import Verif.Model.MptStore
+import Verif.Model.MptInterp
 /-! Model driver for the store-layer suites c03/c04/c05 (op language: /verif/go/harness/mptstore.go). -/
 namespace Driver.MptStore
 open Verif.Mpt Verif.MptStore Driver
@@ -164,6 +165,33 @@ def doSave (s : St) (t : Trie) (k : Option Nat) : St :=
   let s1 := { s with ps := ps1.applyAll stream, saved := s.saved ++ [(t.version, t.root, t.tree, false)] }
   if s.kind0 = "pndb" then setTrie s1 0 { t with db := { t.db with current := s1.ps.nodes } } else s1
 
+/-- the trie-building ops go through the model's interpreter `Forest.step` (Verif.Model.MptInterp) -/
+def tstep (s : St) (op : TOp) : St × String :=
+  let stuck : String :=
+    match op with
+    | .merge id _ =>
+      match findTrie s id with
+      | some (_, c) =>
+        -- hypothesis of the merge theorems, evaluated on every replayed merge: the ordering is never stuck
+        if orderStuckD (mergeOrder c.cc.getChanges) || orderStuckD c.cc.getChanges then " ORDER-STUCK" else ""
+      | none => ""
+    | _ => ""
+  let (f, res) := Forest.step sha3 mergeOrder ⟨s.tries⟩ op
+  let s' := syncP { s with tries := f.tries }
+  let rootOf (id : Nat) : String := match findTrie s' id with | some (_, t) => rootStr t.root | none => "-"
+  match res, op with
+  | .ok es, .ins id _ _ => (s', "ok " ++ rootOf id ++ " ev=" ++ fmtEvents es)
+  | .ok es, .del id _ => (s', "ok " ++ rootOf id ++ " ev=" ++ fmtEvents es)
+  | .ok _, .child _ pid => (s', "ok " ++ rootOf pid)
+  | .ok _, .merge id _ =>
+    let pid := match findTrie s id with | some (pid, _) => pid | none => 0
+    (s', "ok " ++ rootOf pid ++ stuck)
+  | .ok _, _ => (s', "ok")
+  | .notPresent, _ => (s, "notpresent")
+  | .stale, _ => (s, "stale")
+  | .badOp, _ => (s, "bad-op")
+  | .panic, _ => (s, "panic")
+
 def step (s : St) (w : List String) : St × String :=
   match w with
   | ["light"] => (s, "ok")
@@ -177,10 +205,7 @@ def step (s : St) (w : List String) : St × String :=
     let t0 := if kind = "pndb" then { t0 with db := { t0.db with current := s.ps.nodes } } else t0
     let saved2 := if kind = "pndb" then saved1.map (fun e => (e.1, e.2.1, e.2.2.1, true)) else saved1
     ({ s1 with tries := [(0, 0, t0)], kind0 := kind, saved := saved2 }, "ok " ++ rootStr r)
-  | ["ver", id, n] =>
-    match findTrie s id.toNat! with
-    | some (_, t) => (setTrie s id.toNat! { t with version := n.toNat! }, "ok")
-    | none => (s, "bad-op")
+  | ["ver", id, n] => tstep s (.ver id.toNat! n.toNat!)
   | "syncinto" :: id :: w :: rest =>
     match findTrie s id.toNat!, (match rest with | [x] => parseKVs x | _ => some []) with
     | some (_, t), some kvs =>
@@ -197,52 +222,21 @@ def step (s : St) (w : List String) : St × String :=
       let t2 := { t1 with tree := donor, root := root sha3 donor }
       (syncP (setTrie s 0 t2), "ok " ++ rootStr t2.root)
     | _, _ => (s, "bad-op")
-  | ["child", id, pid] =>
-    let id := id.toNat!
-    match findTrie s pid.toNat!, findTrie s id with
-    | some (_, p), none =>
-      if id = 0 then (s, "bad-op")
-      else ({ s with tries := s.tries ++ [(id, pid.toNat!, Trie.open p.root p.tree p.version)] }, "ok " ++ rootStr p.root)
-    | _, _ => (s, "bad-op")
+  | ["child", id, pid] => tstep s (.child id.toNat! pid.toNat!)
   | ["ins", id, p, b] =>
-    match findTrie s id.toNat!, parsePath p, unhex b with
-    | some (_, t), some p, some b =>
-      let (t', es) := t.insert sha3 p b
-      (syncP (setTrie s id.toNat! t'), "ok " ++ rootStr t'.root ++ " ev=" ++ fmtEvents es)
-    | _, _, _ => (s, "bad-op")
-  | ["del", id, p] =>
-    match findTrie s id.toNat!, parsePath p with
-    | some (_, t), some p =>
-      match t.delete sha3 p with
-      | (t', .ok, es) => (syncP (setTrie s id.toNat! t'), "ok " ++ rootStr t'.root ++ " ev=" ++ fmtEvents es)
-      | (_, .notPresent, _) => (s, "notpresent")
-      | (_, _, _) => (s, "panic")
+    match parsePath p, unhex b with
+    | some p, some b => tstep s (.ins id.toNat! p b)
     | _, _ => (s, "bad-op")
+  | ["del", id, p] =>
+    match parsePath p with
+    | some p => tstep s (.del id.toNat! p)
+    | none => (s, "bad-op")
   | ["get", id, p] =>
     match findTrie s id.toNat!, parsePath p with
     | some (_, t), some p => (s, match lookup t.tree p with | some b => "ok " ++ hex b | none => "notpresent")
     | _, _ => (s, "bad-op")
-  | "merge" :: id :: flags =>
-    let id := id.toNat!
-    let keep := flags.contains "keep"
-    match findTrie s id with
-    | some (pid, c) =>
-      if id = 0 then (s, "bad-op") else
-      match findTrie s pid with
-      | some (_, p) =>
-        match mergeMPTChangesOrd sha3 p c (mergeOrder c.cc.getChanges) with
-        | .ok p' =>
-          -- hypothesis of the closed merge theorems, evaluated on every replayed merge: the ordering is never stuck
-          let stuck := if orderStuckD (mergeOrder c.cc.getChanges) || orderStuckD c.cc.getChanges then " ORDER-STUCK" else ""
-          (syncP (if keep then setTrie s pid p' else closeTrie (setTrie s pid p') id), "ok " ++ rootStr p'.root ++ stuck)
-        | .stale => (s, "stale")
-      | none => (s, "bad-op")
-    | none => (s, "bad-op")
-  | ["discard", id] =>
-    let id := id.toNat!
-    match findTrie s id with
-    | some _ => if id = 0 then (s, "bad-op") else (closeTrie s id, "ok")
-    | none => (s, "bad-op")
+  | "merge" :: id :: flags => tstep s (.merge id.toNat! (flags.contains "keep"))
+  | ["discard", id] => tstep s (.discard id.toNat!)
   | ["observe", id] =>
     match findTrie s id.toNat! with
     | some (_, t) => (s, observe s id.toNat! t)
